@@ -31,6 +31,7 @@ EXPLANATION = (
 
 
 def run(ctx: Ctx):
+    ctx.attempt(rules.rule_entity_entry, ctx, "D1", "a request enters the simulation once, through the request updates: re-entering a picked-up request lets it be resolved twice")
     repo = ctx.repo
     pick = repo.func(SOPS, "pick_up_trip")
     cancel_inner = repo.func(CAN, "CancelRequests.update._remove_from_sim")
